@@ -59,7 +59,10 @@ def gen_script(rng, sid):
                 if multi and rng.random() < 0.02:
                     topic = "nosuch"
                 t = topic if topic else "t"
-                msgs.append({"sz": sz, "topic": topic, "p": rng.randrange(cfg["nparts"].get(t, 1))})
+                m = {"sz": sz, "topic": topic, "p": rng.randrange(cfg["nparts"].get(t, 1))}
+                if rng.random() < 0.2 and sz >= 80:
+                    m["hv"] = rng.choice([10, 30, sz - 45])       # part of the size is a record header
+                msgs.append(m)
             if rng.random() < 0.03:
                 msgs = []
             per_g.setdefault(g, []).append({"op": "call", "c": cid, "g": g, "msgs": msgs,
@@ -163,6 +166,11 @@ def directed_scripts():
         {"op": "call", "c": 2, "g": 2, "msgs": [M(40), M(121)]},
         {"op": "call", "c": 3, "g": 3, "msgs": [M(40), M(40, 0, "t")]},
         {"op": "call", "c": 4, "g": 4, "msgs": []}]})
+    # D5h: the same sizes, but most of each message is a record header
+    H = lambda sz, hv: {"sz": sz, "topic": "", "p": 0, "hv": hv}
+    out.append({"id": "D5h-limits-headers", "cfg": dict(base, batchSize=10, batchBytes=200, nparts={"t": 1}), "outcomes": {}, "steps": [
+        {"op": "call", "c": 1, "g": 1, "msgs": [H(100, 60), H(100, 60), H(100, 60), H(100, 60), H(100, 60), H(100, 60)]},
+        {"op": "call", "c": 2, "g": 2, "msgs": [H(100, 55), M(40), H(100, 50), M(60), H(200, 150), H(201, 150)]}]})
     # D6: cancellation while the batch is in flight, then completion still delivered once
     out.append({"id": "D6-cancel-inflight", "cfg": dict(base, nparts={"t": 1}), "outcomes": {"t/0": ["rejTemp", "ok"]}, "steps": [
         {"op": "hold", "gate": "prod:t/0:0"}, {"op": "call", "c": 1, "g": 1, "msgs": [M(40), M(40)], "cancellable": True},
@@ -177,6 +185,27 @@ def directed_scripts():
     out.append({"id": "D8-async-noack", "cfg": dict(base, topic="", nparts={"t": 2, "u": 1}, acked=False), "outcomes": {"t/0": ["netTransient", "ok"]},
                 "steps": [{"op": "call", "c": 1, "g": 1, "msgs": [M(40, 0, "t"), M(40, 1, "t"), M(40, 0, "u")]},
                           {"op": "call", "c": 2, "g": 1, "msgs": [M(40, 0, "t"), M(40, 0, "u")]}]})
+    out[-1]["cfg"]["async"] = True
+    # D9: the timer hand-over of an open batch is delayed at the entry of batchQueue.Put while the same goroutine
+    # submits messages that fill the next batch: detaching and enqueueing must be one step (C07, anchors: "batches
+    # are queued only while they are the current batch, under the partition mutex")
+    for k, (asyn, second) in enumerate([(True, [M(40), M(40)]), (True, [M(40), M(40), M(40)]), (False, [M(40), M(40)])]):
+        g2 = 1 if asyn else 2
+        out.append({"id": "D9-timer-handover-%d" % k, "cfg": dict(base, nparts={"t": 1}, batchTimeoutMs=15), "outcomes": {}, "steps": [
+            {"op": "hold", "gate": "bqput:1"}, {"op": "call", "c": 1, "g": 1, "msgs": [M(40)]},
+            {"op": "waitgate", "gate": "bqput:1"}, {"op": "call", "c": 2, "g": g2, "msgs": second},
+            {"op": "sleep", "ms": 40}, {"op": "release", "gate": "bqput:1"}]})
+        out[-1]["cfg"]["async"] = asyn
+    # D10: same for the hand-over done by Close (pw.close) and by a full batch
+    out.append({"id": "D10-close-handover", "cfg": dict(base, nparts={"t": 1}, batchTimeoutMs=500), "outcomes": {}, "steps": [
+        {"op": "hold", "gate": "bqput:1"}, {"op": "call", "c": 1, "g": 1, "msgs": [M(40)]}, {"op": "sleep", "ms": 5},
+        {"op": "close"}, {"op": "waitgate", "gate": "bqput:1"}, {"op": "call", "c": 2, "g": 1, "msgs": [M(40), M(40)]},
+        {"op": "sleep", "ms": 30}, {"op": "release", "gate": "bqput:1"}]})
+    out[-1]["cfg"]["async"] = True
+    out.append({"id": "D10-full-handover", "cfg": dict(base, nparts={"t": 1}, batchTimeoutMs=500), "outcomes": {}, "steps": [
+        {"op": "hold", "gate": "bqput:1"}, {"op": "call", "c": 1, "g": 1, "msgs": [M(40), M(40), M(40)]},
+        {"op": "waitgate", "gate": "bqput:1"}, {"op": "call", "c": 2, "g": 2, "msgs": [M(40)]},
+        {"op": "sleep", "ms": 30}, {"op": "release", "gate": "bqput:1"}]})
     out[-1]["cfg"]["async"] = True
     return out
 
